@@ -860,7 +860,10 @@ class RunLengthRaggedArray(RunLength2dArray, IndexableMixin):
     def argmax(self, axis=-1, **kwargs):
         assert axis in (-1, 1)
         m = self.max(axis=-1, keepdims=True)
-        rows, cols = np.nonzero(self._values == m)
+        is_max = self._values == m
+        if np.issubdtype(self._values.dtype, np.floating):
+            is_max = is_max | (np.isnan(self._values) & np.isnan(m))  # a row holding NaN: numpy points at the first NaN
+        rows, cols = np.nonzero(is_max)
         _, idxs = np.unique(rows, return_index=True)
         return self._indices[np.arange(len(idxs)), cols[idxs]]
 
